@@ -170,6 +170,30 @@ def run(rep, facts, tier):
                 'fails only on stack / operand-type errors%s' % (' and unsupported float width' if 'float' in pk else '') if not bad else
                 '%s has a failure mode of its own (%s): some (width, value) the matching reader word produces cannot be packed back'
                 % (short(pk), '; '.join(sorted(set(bad)))), pk, f.j['span'])
+    # widths: the packers take any width, the integer readers must accept every width up to 128 for both signednesses; a
+    # refusal may depend on the VALUE not fitting the integer type, never on a width <= 128 alone
+    from .c08 import guard_facts
+    from ..zone import strip as zstrip, lin
+    for rd in ('bitstr_ext::read_unsigned', 'bitstr_ext::read_signed'):
+        fx.need(rd)
+        f = V(rd)
+        worst = None
+        for bb in f.reachable_blocks():
+            for st in f.blocks[bb]['stmts']:
+                if st['k'] == 'assign' and st['rv']['k'] == 'agg' and st['rv'].get('adt') == 'error::Xerr' and st['rv'].get('variant') == 'IntegerOverflow':
+                    for (op, a, b) in guard_facts(f, bb):
+                        sa = expr_str(zstrip(a), -12)
+                        lb = lin(b)
+                        if op in ('Gt', 'Ge') and 'Bitstr::len' in sa and lb is not None and not lb[0]:
+                            first_refused = lb[1] + 1 if op == 'Gt' else lb[1]
+                            others = [g for g in guard_facts(f, bb) if not ('Bitstr::len' in expr_str(zstrip(g[1]), -12))]
+                            if not others:
+                                worst = first_refused if worst is None else min(worst, first_refused)
+        ok = worst is None or worst > 128
+        rep.add('C07.R1', 'C07.R1:reader-width-limit:%s' % rd, ok,
+                'no width up to 128 is refused by its length alone' if ok else
+                '%s refuses every field of %d bits and more whatever its value: a %d-bit field written by the packer cannot be read back'
+                % (short(rd), worst, worst), rd, f.j['span'])
     # generic words
     GENERIC = {'int': 'bitstr_ext::read_signed', 'uint': 'bitstr_ext::read_unsigned', 'float': 'bitstr_ext::read_float',
                'int!': 'bitstr_ext::pack_int', 'uint!': 'bitstr_ext::pack_int', 'float!': 'bitstr_ext::pack_float_bo'}
@@ -209,6 +233,22 @@ def check_emit(rep, fx):
                     rep.add('C07.R2', 'C07.R2:write:%s:%s' % (cell, fn), ok, 'written by emit / intercept_output' if ok else
                             '%s writes the `%s` cell: output and output-length can drift apart' % (short(fn), cell), fn, t.get('at'), nontrivial=False)
     rep.floor('C07.R2 output cell write sites', n, 4)
+    # a fresh capture buffer starts at length 0: wherever `output` is (re)set to an empty bit-string, `output-length` is reset too
+    for fn in sorted(fx.fns):
+        if V.transparent(fn) and fx.callers().get(fn):
+            continue
+        g = V(fn)
+        outs = [(bb, t) for bb, t in g.calls() if callee_of(t) in WRITERS and len(t['args']) > 2 and cell_of(g, t['args'][1]) == 'output']
+        lens = {bb for bb, t in g.calls() if callee_of(t) in WRITERS and len(t['args']) > 1 and cell_of(g, t['args'][1]) == 'output_len'}
+        for bb, t in outs:
+            v = expr_str(g.expr_of_operand(t['args'][2]), -20)
+            if 'Bitstr::new' not in v and 'Default>::default' not in v and 'BitstrRange' not in v:
+                continue
+            ok = any(g.dominates(b2, bb) or g.dominates(bb, b2) for b2 in lens)
+            rep.add('C07.R2', 'C07.R2:%s:fresh-output-resets-length' % fn, ok,
+                    'the length cell is reset together with the buffer' if ok else
+                    '%s installs an empty `output` but leaves `output-length` at its old value: after a capture is restarted the two '
+                    'no longer describe the same buffer' % short(fn), fn, t.get('at'))
     upd = [(bb, t) for bb, t in f.calls() if callee_of(t) == 'state::State::update_var' and cell_of(f, t['args'][1]) == 'output_len']
     sets = [(bb, t) for bb, t in f.calls() if callee_of(t) == 'state::State::set_var' and cell_of(f, t['args'][1]) == 'output']
     if not upd or not sets:
